@@ -178,6 +178,21 @@ Example C11_redefinition_hypotheses :
   reach_freeb (reg_fuel rd_reg) rd_reg rd_nd (map_to_list (u1 "hour")) = true ∧
   reach_freeb (reg_fuel rd_reg) rd_reg rd_nd (map_to_list (u1 "yard")) = false.
 Proof. exact redefinition_hypotheses. Qed.
+(** colliding redefinitions: the newest context's redefinitions are applied last, and a redefinition
+    is in force under every spelling of the unit whatever was written before (by whatever spelling) *)
+Theorem C11_newest_redefinitions_applied_last {E} r (pc : pctx E) (c : list (pctx E)) :
+  overlay r (pc :: c) = (r1 ←r overlay r c; foldM redefine (cx_redefs (pc_ctx pc)) r1).
+Proof. exact (overlay_cons r pc c). Qed.
+Theorem C11_redefinition_in_force (r r' : reg) (d : redef) :
+  redefine r d = Ok r' →
+  ∃ nd, r' = r_over r nd ∧ ∀ k, k ∈ spellings nd → r_units r' !! k = Some nd.
+Proof. exact (redefine_in_force r r' d). Qed.
+Example C11_colliding_redefinitions :
+  yard_under [rd_ctx "new" [("ft"%string, "7"%string)]; rd_ctx "old" [("foot"%string, "10"%string)]] = Some (mkq 21 1) ∧
+  yard_under [rd_ctx "new" [("foot"%string, "10"%string)]; rd_ctx "old" [("ft"%string, "7"%string)]] = Some (mkq 30 1) ∧
+  yard_under [rd_ctx "both" [("foot"%string, "10"%string); ("ft"%string, "7"%string)]] = Some (mkq 21 1) ∧
+  yard_under [] = Some (mkq 36 1).
+Proof. exact colliding_redefinitions. Qed.
 Example C11_redefinition_example :
   root_factor rd_reg "yard" = Some (mkq 36 1) ∧ root_factor rd_reg' "yard" = Some (mkq 30 1) ∧
   root_factor rd_reg' "foot" = Some (mkq 10 1) ∧ root_factor rd_reg' "hour" = root_factor rd_reg "hour" ∧
